@@ -258,9 +258,56 @@ EX_INV = [('result heap well formed', _results_wf),
           ('stored designs are made of index positions', _stored_ok,
            ('C01', 'C04', 'C09', 'C10'))]
 
+def optbud(s, t):
+  """Optimistic required budget of a treatment group (at rho_max)."""
+  p = s.self.parameters
+  return cl.EST0(agg_y(s, t), p, N(p.rho_max)) / N(p.iroas)
+
+
+def _skip_t_documented(s):
+  """A treatment group is skipped only for a documented reason: its share of
+  the response is outside the share range; or (no share range) a recorded
+  over-budget treatment group is contained in it; or its optimistic required
+  budget is outside the budget range."""
+  p = s.self.parameters
+  t = S(s.treatment_group)
+  sr, br = unwrap(p.treatment_share_range), unwrap(p.budget_range)
+  pat = z3.Const('p!sk', SetI)
+  skipped = z3.Exists([pat], z3.And(
+      z3.IsMember(pat, unwrap(s.skip_treatment_geo_patterns).elems),
+      z3.IsSubset(pat, t)))
+  ob = optbud(s, t)
+  return z3.Or(
+      z3.And(z3.Not(sr.none), z3.Not(share1_ok(s, t))),
+      z3.And(sr.none, skipped),
+      z3.And(z3.Not(br.none), z3.Or(ob > N(br.val.items[1]),
+                                    ob < N(br.val.items[0]))))
+
+
+def _skip_c_documented(s):
+  """A (treatment, control) pair is skipped only when its volume ratio or its
+  required budget is outside the inclusive bounds."""
+  p = s.self.parameters
+  t, c = S(s.treatment_group), S(s.control_group)
+  vt, br = unwrap(p.volume_ratio_tolerance), unwrap(p.budget_range)
+  return z3.Or(z3.And(z3.Not(vt.none), z3.Not(vol_ok(s, t, c))),
+               z3.And(z3.Not(br.none), z3.Not(budget_ok(s, t, c))))
+
+
 spec.contract(
     CLS + '.exhaustive_search', params={},
     result=TSeq(ItemSort),
+    at_continue={
+        'treatment_group': [
+            ('C03 a treatment group is skipped only for a documented reason '
+             '(share outside range, superset of a recorded over-budget group, '
+             'optimistic budget outside range)', _skip_t_documented,
+             ('C03',))],
+        'control_group': [
+            ('C03 a design is skipped only when its volume ratio or required '
+             'budget is outside the inclusive bounds', _skip_c_documented,
+             ('C03', 'C02'))],
+    },
     modifies=GA_MOD + ['self._search_results'],
     props=('C01', 'C02', 'C04', 'C09', 'C10'),
     requires=SEARCH_REQ,
